@@ -67,7 +67,7 @@ CHECKS = {
              "(+ async_trait when async)} x 9 assignments of further dependency bounds to the block's fns (0/1/2 bounds, increasing, decreasing, disjoint, two instantiations of one generic trait, two different traits with the same last path segment), "
              "with two competing target types X1/X2 of identical method names selected by AppA/AppB: every call must produce exactly one event, from the "
              "selected target's function of that name, whose deps argument is the caller's &Impl<App> (address + type), arguments in order, result unchanged; "
-             "the block's functions call further (non-blanket) dependencies through deps. Short words are repeated with the impl blocks stamped out by macro_rules (target type as `$t:ty` fragment) next to decoy free functions named like the methods.",
+             "the block's functions call further (non-blanket) dependencies through deps. One-method words are repeated with the dynamic impl block spelled `#[entrait(dyn)]` / `#[entrait(ref dyn)]`, short words with the impl blocks stamped out by macro_rules (target type as `$t:ty` fragment) next to decoy free functions named like the methods.",
         note=NOTE, technique="bounded-exhaustive enumeration of delegated traits + impl blocks on the real macro; executed trace vs model",
         ref="DESIGN.md §3 C07"),
     "C08": dict(
@@ -156,7 +156,7 @@ CHECKS = {
     "C17": dict(
         text="State graph whose nodes are option sets and whose edges append one option: every ordered selection of the six fn/mod options "
              "and the five trait options (every path into every node), plus all 4^4 value-form combinations {absent,bare,=true,=false} of the "
-             "boolean options x mock_api x ?Send, the `debug` option in every form and position on five base invocations, under both macro names and both crate features, on fn / concrete-deps fn / parameterless fn / mod / trait / impl items (~11.6k invocations). "
+             "boolean options x mock_api x ?Send, the `debug` option in every form and position on five base invocations, the three spellings of the dynamic impl-block kind (`ref`, `dyn`, `ref dyn`), under both macro names and both crate features, on fn / concrete-deps fn / parameterless fn / mod / trait / impl items (~11.6k invocations). "
              "Invocations with the same semantic key (derived from the statement and the option table's defaults only) must expand to identical token trees - for concrete-deps fns whose "
              "arguments set `unimock` explicitly the nested expansion on the generated trait is compared as well; options outside "
              "their documented target must be rejected, documented ones accepted.",
